@@ -19,7 +19,11 @@
                   in use.  "position" = the i-th surviving connection.  "count" = the pinned code before
                   the fix: a new connection got index = number of survivors, so indexes could repeat
                   (the C11 defect; kept as a variant whose counter-example is replayed into the code).
-                  The compiled graph always numbers survivors 0..n-1. *)
+                  The compiled graph always numbers survivors 0..n-1.
+     DEVIATION-5  a connection created while attribute globs on connections stand ((* -> *)[*].label: L) gets the
+                  glob's value even when the creating declaration carries its own (a -> b: own): the code applies
+                  the standing rules after the declaration.  `label` follows the code, `lblP` the property;
+                  TraceD2IR reports the programs on which they differ under C12. *)
 EXTENDS Integers, Sequences, FiniteSets, Json, TLC
 CONSTANTS MaxLen, IndexRule, LabelRule
 VARIABLES st, prog
@@ -76,12 +80,47 @@ SetObj(objs, key, f(_)) == [objs EXCEPT ![IdxOf(objs, key)] = f(@)]
 RemoveIdx(q, S) == LET keep == {j \in 1..Len(q) : j \notin S}
                    IN [n \in 1..Cardinality(keep) |-> q[CHOOSE j \in keep : Cardinality({k \in keep : k < j}) = n - 1]]
 
-Empty == [objs |-> <<>>, edges |-> <<>>, err |-> FALSE, dirty |-> {}, rules |-> <<>>, cdefs |-> <<>>]
+Empty == [objs |-> <<>>, edges |-> <<>>, err |-> FALSE, dirty |-> {}, rules |-> <<>>, cdefs |-> <<>>, n |-> 0, grules |-> <<>>, erules |-> <<>>]
+
+\* ---- connection globs (C12), top-level scope.  A standing attribute rule [sp, dp, sa, da, a, v] (written
+\* (sp -> dp)[*].a: v) acts on every connection between top-level objects whose ends match and whose arrows are
+\* the rule's; a standing creation rule (written * -> *) declares a connection for every ordered pair of distinct
+\* top-level objects, those that exist and, at the moment it is created, every later one.  Neither creates objects.
+PatOK(pat, name) == pat = "*" \/ Fold(pat) = name
+ERuleApplies(r, e) == Len(e.s) = 1 /\ Len(e.d) = 1 /\ r.sa = e.sa /\ r.da = e.da /\ PatOK(r.sp, e.s[1]) /\ PatOK(r.dp, e.d[1])
+\* an edge carries two labels: `label` follows the code (standing rules are applied after the creating declaration's
+\* own label and override it - DEVIATION-5), `lblP` is what C12 states (the later, explicit declaration wins)
+SetEdgeAttr(e, a, v) == IF a = "label" THEN [e EXCEPT !.label = v, !.lblP = v] ELSE [e EXCEPT !.attrs[a] = v]
+RECURSIVE ApplyERules(_, _, _)
+ApplyERules(e, rules, n) == IF n > Len(rules) THEN e
+                            ELSE ApplyERules(IF ERuleApplies(rules[n], e) THEN SetEdgeAttr(e, rules[n].a, rules[n].v) ELSE e, rules, n + 1)
+MkEdge(s, src, dst, sa, da, own, born, irule) ==
+  LET e0 == [s |-> src, d |-> dst, sa |-> sa, da |-> da, label |-> None, lblP |-> None, attrs |-> [a \in StyleAttrs |-> None], sid |-> 0, born |-> born]
+      inb == InBundle(s.edges, Bundle(e0))
+      \* createEdge2: one past the highest index in use ("count": the pinned code before the fix, number of survivors)
+      sid == IF irule = "count" THEN Cardinality(inb)
+             ELSE IF inb = {} THEN 0 ELSE 1 + (CHOOSE m \in {s.edges[j].sid : j \in inb} : \A j \in inb : s.edges[j].sid <= m)
+      g == ApplyERules([e0 EXCEPT !.label = own, !.lblP = own], s.erules, 1)
+  IN [s EXCEPT !.edges = Append(@, [g EXCEPT !.sid = sid, !.lblP = IF own # None THEN own ELSE g.lblP])]
+TopNames(objs) == LET idx == {i \in 1..Len(objs) : Len(objs[i].key) = 1}
+                  IN [n \in 1..Cardinality(idx) |-> objs[CHOOSE i \in idx : Cardinality({k \in idx : k < i}) = n - 1].key[1]]
+\* the pairs a creation rule has not made yet when T[k] appears: every earlier object to it, then it to every earlier object
+NewPairs(T, k) == [n \in 1..(2 * (k - 1)) |-> IF n <= k - 1 THEN <<T[n], T[k]>> ELSE <<T[k], T[n - (k - 1)]>>]
+AllPairs(T) == LET N == Len(T) IN [n \in 1..(N * (N - 1)) |->
+                 LET i == ((n - 1) \div (N - 1)) + 1  r == ((n - 1) % (N - 1)) + 1 IN <<T[i], T[IF r < i THEN r ELSE r + 1]>>]
+RECURSIVE AddPairs(_, _, _, _, _)
+AddPairs(s, pairs, n, r, irule) == IF n > Len(pairs) THEN s
+   ELSE AddPairs(MkEdge(s, <<pairs[n][1]>>, <<pairs[n][2]>>, r.sa, r.da, r.label, r.decl, irule), pairs, n + 1, r, irule)
+RECURSIVE FireRules(_, _, _, _, _)
+FireRules(s, T, k, m, irule) == IF m > Len(s.grules) THEN s ELSE FireRules(AddPairs(s, NewPairs(T, k), 1, s.grules[m], irule), T, k, m + 1, irule)
+\* top-level objects that a declaration created fire the standing creation rules, one object after the other
+RECURSIVE FireFrom(_, _, _, _)
+FireFrom(s, T, k, irule) == IF k > Len(T) THEN s ELSE FireFrom(FireRules(s, T, k, 1, irule), T, k + 1, irule)
+Fire(s, oldObjs, irule) == IF s.grules = <<>> THEN s ELSE FireFrom(s, TopNames(s.objs), Len(TopNames(oldObjs)) + 1, irule)
 
 Matches(edges, b, i) == MatchesR(edges, b, i, IndexRule)
 
-ApplyR(s, d, irule) ==
-  IF s.err THEN s ELSE
+ApplyCore(s, d, irule) ==
   CASE d.k = "obj" ->
          LET o1 == EnsureR(s.objs, d.p, s.rules) key == FoldPath(d.p)
          IN [s EXCEPT !.objs = IF d.v = "" THEN o1 ELSE SetObj(o1, key, LAMBDA o : [o EXCEPT !.plbl = d.v, !.lblLast = "p"])]
@@ -103,20 +142,23 @@ ApplyR(s, d, irule) ==
                            !.dirty = @ \cup {Bundle(s.edges[j]) : j \in goneE}]
          ELSE [s EXCEPT !.objs = EnsureR(s.objs, Front(d.p), s.rules)]          \* DEVIATION-1
     [] d.k = "edge" ->
+         \* the ends are created first (and fire the standing creation rules), then the connection itself
          LET o1 == EnsureR(EnsureR(s.objs, d.s, s.rules), d.d, s.rules)
-             e == [s |-> FoldPath(d.s), d |-> FoldPath(d.d), sa |-> d.sa, da |-> d.da, label |-> IF d.v = "" THEN None ELSE d.v,
-                   attrs |-> [a \in StyleAttrs |-> None], sid |-> 0]
-             inb == InBundle(s.edges, Bundle(e))
-             \* createEdge2: one past the highest index in use ("count": the pinned code before the fix, number of survivors)
-             sid == IF irule = "count" THEN Cardinality(inb)
-                    ELSE IF inb = {} THEN 0 ELSE 1 + (CHOOSE m \in {s.edges[j].sid : j \in inb} : \A j \in inb : s.edges[j].sid <= m)
-         IN [s EXCEPT !.objs = o1, !.edges = Append(s.edges, [e EXCEPT !.sid = sid])]
+             s1 == Fire([s EXCEPT !.objs = o1], s.objs, irule)
+         IN MkEdge(s1, FoldPath(d.s), FoldPath(d.d), d.sa, d.da, IF d.v = "" THEN None ELSE d.v, s.n, irule)
+    [] d.k = "gedge" ->
+         LET r == [sa |-> d.sa, da |-> d.da, label |-> IF d.v = "" THEN None ELSE d.v, decl |-> s.n]
+         IN [AddPairs(s, AllPairs(TopNames(s.objs)), 1, r, irule) EXCEPT !.grules = Append(s.grules, r)]
+    [] d.k = "eglob" ->
+         LET r == [sp |-> d.sp, dp |-> d.dp, sa |-> d.sa, da |-> d.da, a |-> d.a, v |-> d.v]
+         IN [s EXCEPT !.edges = [j \in 1..Len(s.edges) |-> IF ERuleApplies(r, s.edges[j]) THEN SetEdgeAttr(s.edges[j], r.a, r.v) ELSE s.edges[j]],
+                      !.erules = Append(s.erules, r)]
     [] d.k = "eref" ->
          LET b == <<FoldPath(d.s), FoldPath(d.d), d.sa, d.da>> m == MatchesR(s.edges, b, d.i, irule) IN
          IF m = {} THEN [s EXCEPT !.err = TRUE]
          ELSE [s EXCEPT !.edges = [j \in 1..Len(s.edges) |->
                  IF j \notin m THEN s.edges[j]
-                 ELSE IF d.a = "label" THEN [s.edges[j] EXCEPT !.label = d.v] ELSE [s.edges[j] EXCEPT !.attrs[d.a] = d.v]]]
+                 ELSE SetEdgeAttr(s.edges[j], d.a, d.v)]]
     [] d.k = "enull" ->
          LET b == <<FoldPath(d.s), FoldPath(d.d), d.sa, d.da>> m == MatchesR(s.edges, b, d.i, irule) IN
          IF m = {} THEN s
@@ -140,6 +182,13 @@ ApplyR(s, d, irule) ==
                       !.rules = Append(s.rules, r)]
     [] OTHER -> s
 
+\* one declaration: s.n is its number; objects it created fire the standing creation rules ("edge" does so itself, before its connection)
+ApplyR(s, d, irule) ==
+  IF s.err THEN s ELSE
+  LET sN == [s EXCEPT !.n = @ + 1]
+      s1 == ApplyCore(sN, d, irule)
+  IN IF d.k = "edge" \/ s1.err THEN s1 ELSE Fire(s1, s.objs, irule)
+
 Apply(s, d) == ApplyR(s, d, IndexRule)
 
 \* ------------------------------------------------------------------ projection to a compiled board
@@ -162,16 +211,22 @@ LabelOf(o) == LabelOfR(o, LabelRule)
 ProjObj(o) == [path |-> o.key, spell |-> o.spell, parent |-> Front(o.key), label |-> LabelOf(o),
                shape |-> IF o.shape = None THEN "rectangle" ELSE o.shape,
                attrs |-> {<<a, o.attrs[a]>> : a \in {x \in StyleAttrs : o.attrs[x] # None}}]
-ProjEdge(edges, j) == LET e == edges[j] IN
+ProjEdgeL(edges, j, lrule) == LET e == edges[j] lb == IF lrule = "code" THEN e.label ELSE e.lblP IN
   [src |-> e.s, dst |-> e.d, sa |-> e.sa, da |-> e.da,
-   idx |-> Cardinality({k \in InBundle(edges, Bundle(e)) : k < j}),       \* initIndex: survivors renumbered 0..n-1
-   label |-> IF e.label = None THEN "" ELSE e.label,
+   idx |-> Cardinality({k \in InBundle(edges, Bundle(e)) : k < j}),       \* initIndex: survivors renumbered 0..n-1 in creation order
+   label |-> IF lb = None THEN "" ELSE lb,
    attrs |-> {<<a, e.attrs[a]>> : a \in {x \in StyleAttrs : e.attrs[x] # None}}]
-Proj(s) == [objs |-> [i \in 1..Len(s.objs) |-> ProjObj(WithClasses(s.cdefs, s.objs[i]))], edges |-> [j \in 1..Len(s.edges) |-> ProjEdge(s.edges, j)]]
+ProjEdge(edges, j) == ProjEdgeL(edges, j, "code")
+\* connections are listed by the declaration that declared them (a glob's connections under the glob), then by creation
+EdgeOrd(edges) == [r \in 1..Len(edges) |-> CHOOSE j \in 1..Len(edges) :
+                     Cardinality({k \in 1..Len(edges) : edges[k].born < edges[j].born \/ (edges[k].born = edges[j].born /\ k < j)}) = r - 1]
+ProjEdgesL(s, lrule) == LET ord == EdgeOrd(s.edges) IN [r \in 1..Len(s.edges) |-> ProjEdgeL(s.edges, ord[r], lrule)]
+Proj(s) == [objs |-> [i \in 1..Len(s.objs) |-> ProjObj(WithClasses(s.cdefs, s.objs[i]))], edges |-> ProjEdgesL(s, "code")]
 
 \* ------------------------------------------------------------------ the state machine: all programs up to MaxLen
 Init == st = Empty /\ prog = <<>>
 Declare(i) == /\ Len(prog) < MaxLen /\ ~st.err
+              /\ ~(Decls[i].k \in {"gedge", "eglob"} /\ \E k \in 1..Len(prog) : prog[k] = i)    \* a verbatim repetition is KF-C12-1's subject
               /\ st' = Apply(st, Decls[i]) /\ prog' = Append(prog, i)
 Next == \E i \in 1..NDecls : Declare(i)
 Spec == Init /\ [][Next]_<<st, prog>>
@@ -210,6 +265,27 @@ GlobLater == [][\A i \in 1..NDecls : (prog' = Append(prog, i) /\ ~st'.err) =>
              ms == {n \in 1..Len(st.rules) : RuleApplies(st.rules[n], key) /\ st.rules[n].a = a}
              own == Decls[i].k \in {"attr", "glob"} /\ Decls[i].a = a
          IN (ms # {} /\ ~own) => AttrOf(st'.objs[j], a) = st.rules[CHOOSE n \in ms : \A m \in ms : m <= n].v]_<<st, prog>>
+
+\* C12 on connections: a creation rule never joins an object to itself and has made exactly one connection for every
+\* ordered pair of distinct top-level objects, whenever they were created
+GlobEdgesWF == \A m \in 1..Len(st.grules) : LET r == st.grules[m] T == TopNames(st.objs) IN
+  /\ \A j \in 1..Len(st.edges) : st.edges[j].born = r.decl => st.edges[j].s # st.edges[j].d
+  /\ \A x, y \in 1..Len(T) : x # y => Cardinality({j \in 1..Len(st.edges) : st.edges[j].born = r.decl /\ st.edges[j].s = <<T[x]>> /\ st.edges[j].d = <<T[y]>>}) = 1
+EAttrOf(e, a) == IF a = "label" THEN e.lblP ELSE e.attrs[a]
+\* an attribute rule acts on every matching connection that exists now ...
+EdgeGlobNow == [][\A i \in 1..NDecls : (prog' = Append(prog, i) /\ Decls[i].k = "eglob" /\ ~st'.err) =>
+     LET d == Decls[i] r == [sp |-> d.sp, dp |-> d.dp, sa |-> d.sa, da |-> d.da, a |-> d.a, v |-> d.v] IN
+       /\ Len(st'.edges) = Len(st.edges)
+       /\ \A j \in 1..Len(st'.edges) : IF ERuleApplies(r, st'.edges[j]) THEN EAttrOf(st'.edges[j], d.a) = d.v ELSE st'.edges[j] = st.edges[j]]_<<st, prog>>
+\* ... and on every matching connection created later, at the moment it is created; the creating declaration's own label then wins
+EdgeGlobLater == [][\A i \in 1..NDecls : (prog' = Append(prog, i) /\ ~st'.err /\ Decls[i].k # "eglob") =>
+     \A j \in (Len(st.edges) + 1)..Len(st'.edges) : \A a \in StyleAttrs \cup {"label"} :
+       LET e == st'.edges[j]
+           ms == {n \in 1..Len(st.erules) : ERuleApplies(st.erules[n], e) /\ st.erules[n].a = a}
+           \* does the declaration that declares e carry its own label?  (this declaration, or the creation rule e was made by)
+           own == a = "label" /\ (IF e.born = st'.n THEN Decls[i].k \in {"edge", "gedge"} /\ Decls[i].v # ""
+                                  ELSE \E m \in 1..Len(st'.grules) : st'.grules[m].decl = e.born /\ st'.grules[m].label # None)
+       IN (ms # {} /\ ~own) => EAttrOf(e, a) = st.erules[CHOOSE n \in ms : \A m \in ms : m <= n].v]_<<st, prog>>
 
 \* C11: an indexed reference changes exactly one connection or is an error
 IndexedRefHitsOne == [][\A i \in 1..NDecls : (prog' = Append(prog, i) /\ Decls[i].k = "eref") =>
